@@ -79,6 +79,9 @@ def _run(case, cfg, w):
     ns_behaviour = {'mode': 'accept'}
 
     def splan(label, args, ev):
+        if label[3] == 'connect':
+            env = [a for a in args if isinstance(a, dict) and 'sim.conn' in a]
+            ev['cid'] = env[0]['sim.conn'].cid if env else None
         if label[3] == 'connect' and ns_behaviour['mode'] == 'refuse':
             return [('raise', socketio.exceptions.ConnectionRefusedError(
                 'no'))]
@@ -140,9 +143,11 @@ def _run(case, cfg, w):
     auth_calls = []
     if cfg['auth'] == 'callable':
         def auth():
+            # a callable is how an application supplies credentials that
+            # change over time: every evaluation returns a fresh value
             auth_calls.append(w.now())
-            return {'token': 'from-callable'}
-        want_auth = {'token': 'from-callable'}
+            return {'token': 'call-%d' % len(auth_calls)}
+        want_auth = 'CALLABLE'
     else:
         auth = cfg['auth']
         want_auth = cfg['auth']
@@ -365,8 +370,30 @@ def _run(case, cfg, w):
                   % (info, first_info))
     sconn = [e for e in rec.events if e['kind'] == 'h_enter'
              and e['label'][0] == 's' and e['label'][3] == 'connect']
+    last_cid, last_k = None, 0
     for e in sconn:
         got = e['args'][2] if len(e['args']) > 2 else None
+        if want_auth == 'CALLABLE':
+            # per transport connection the callable is evaluated anew: all
+            # namespaces of one connection carry one value, and a later
+            # connection never repeats the value of an earlier one
+            cid = e.get('cid', e['seq'])
+            tok = got.get('token') if isinstance(got, dict) else None
+            k = int(tok[5:]) if isinstance(tok, str) and \
+                tok.startswith('call-') and tok[5:].isdigit() else None
+            if k is None or k > len(auth_calls):
+                v.add('auth_not_repeated', 'server saw auth %r from a '
+                      'callable' % (got,))
+            elif cid != last_cid and k <= last_k:
+                v.add('auth_callable_not_reevaluated', 'a later connection '
+                      'carried %r again (callable evaluated %d times in all)'
+                      % (got, len(auth_calls)))
+            elif cid == last_cid and k != last_k:
+                v.add('auth_not_repeated', 'namespaces of one connection '
+                      'carried different values (%r)' % (got,))
+            if k is not None:
+                last_cid, last_k = cid, k
+            continue
         if (got or None) != (want_auth or None):
             v.add('auth_not_repeated', 'server saw auth %r, expected %r'
                   % (got, want_auth))
